@@ -392,13 +392,14 @@ func (vfs *OrefaFS) Link(oldname, newname string) error {
 		return &os.LinkError{Op: op, Old: oldname, New: newname, Err: err}
 	}
 
-	avfs.VerifBeforeLock(&oChild.mu, true)
-	oChild.mu.Lock()
-	defer oChild.mu.Unlock()
-
+	// The directory is locked before the file, as a directory listing does.
 	avfs.VerifBeforeLock(&nParent.mu, true)
 	nParent.mu.Lock()
 	defer nParent.mu.Unlock()
+
+	avfs.VerifBeforeLock(&oChild.mu, true)
+	oChild.mu.Lock()
+	defer oChild.mu.Unlock()
 
 	vfs.nodes[nAbsPath] = oChild
 
@@ -851,14 +852,20 @@ func (vfs *OrefaFS) Rename(oldname, newname string) error {
 		return &os.LinkError{Op: op, Old: oldname, New: newname, Err: vfs.err.InvalidArgument}
 	}
 
-	avfs.VerifBeforeLock(&nParent.mu, true)
-	nParent.mu.Lock()
-	defer nParent.mu.Unlock()
+	// The directory nearer to the root is locked first, as a directory listing locks a directory before its entries.
+	first, second := nParent, oParent
+	if len(oDirName) < len(nDirName) {
+		first, second = oParent, nParent
+	}
 
-	if nParent != oParent {
-		avfs.VerifBeforeLock(&oParent.mu, true)
-		oParent.mu.Lock()
-		defer oParent.mu.Unlock()
+	avfs.VerifBeforeLock(&first.mu, true)
+	first.mu.Lock()
+	defer first.mu.Unlock()
+
+	if second != first {
+		avfs.VerifBeforeLock(&second.mu, true)
+		second.mu.Lock()
+		defer second.mu.Unlock()
 	}
 
 	if nChildOk {
